@@ -339,6 +339,24 @@ func workerDigest(t *testing.T, pd *PropDef) {
 }
 
 func dumpRun(run *Run) {
+	if run.HS != nil {
+		for i, res := range run.HS.Dials {
+			fmt.Printf("  dial %d returned=%v conn=%v err=%q panic=%v t=%d..%d steps=%d..%d post=%q\n", i, res.Returned, res.Conn != nil, res.ErrText, res.Panic != "", res.Start, res.End, res.StepStart, res.StepEnd, res.PostErr)
+			res.Proxy.RawFirst, res.Proxy.TunnelFirst, res.Proxy.FirstBytes = nil, nil, nil
+			fmt.Printf("    proxy: %+v\n    backend: accepted=%d sni=%q upgraded=%v err=%q echoed=%d tlserr=%q first=%q\n", res.Proxy, res.Backend.Accepted, res.Backend.SNI, res.Backend.Upgraded, res.Backend.UpgradeErr, res.Backend.Echoed, res.Backend.TLSErr, clip(string(res.Backend.RawFirst)))
+			for _, hc := range res.Hooks {
+				fmt.Printf("    hook %s %s %s closedAtReturn=%v dl=%d/%d\n", hc.Hook, hc.Network, hc.Addr, hc.ClosedAtReturn, hc.RdAtReturn, hc.WrAtReturn)
+				if hc.Conn != nil {
+					for _, c := range hc.Conn.Calls() {
+						fmt.Printf("      call %c all=%d step=%d t=%d arg=%d n=%d err=%d fault=%d\n", c.Op, c.All, c.Step, c.T, c.Arg, c.N, c.Err, c.Fault)
+					}
+				}
+			}
+		}
+		if run.HS.Srv != nil {
+			fmt.Printf("  srv: %+v\n  resp=%q\n", *run.HS.Srv, run.HS.SrvResp)
+		}
+	}
 	for _, tk := range run.Tasks {
 		fmt.Printf("  task %d %s ops=%d aborted=%v panic=%q\n", tk.ID, tk.Name, len(tk.Hist), tk.Aborted, tk.Panic)
 		for _, r := range tk.Hist {
